@@ -70,6 +70,17 @@ def run (α : Type) [Scalar α] [Codec α] (op : String) (c : Ctx) : Option (Rd 
       match allSome (us.map (Spec.rayExit V cen)) with
       | some ts => pure s!"{Out.sc cen.x} {Out.sc cen.y} {Out.scs ts}"
       | none => pure "E:no-hit"
+  | "c14.hyp" => some do
+      -- in: flip verts centre ; out: strictConvexCCWb, strictlyInsideCCWb (0/1) of the list the code
+      --     works with (reversed if flip).  Exact in mode Q: these are the hypotheses of
+      --     `cpoly_dts_correct(_cw)` (`cpoly_dts_correct_checked`), decided on the stored data.
+      let flip ← rdBool c
+      let V : List (P2 α) ← Rd.list c (rdP2 c)
+      let cen : P2 α ← rdP2 c
+      let W := if flip then V.reverse else V
+      let b1 := Spec.strictConvexCCWb W
+      let b2 := Spec.strictlyInsideCCWb W cen
+      pure s!"{Out.int (if b1 then 1 else 0)} {Out.int (if b2 then 1 else 0)}"
   | _ => none
 
 end OpsC14
